@@ -5,7 +5,7 @@
    unsupported function code -> 01. *)
 From PM.theories Require Import Base Expr Store Exec ExecSpec ExecView.
 From PM.Generated Require Import GenStore GenExec.
-From PM.proofs Require Import Store_proofs Exec_proofs Exec_req_proofs Exec_hist_proofs.
+From PM.proofs Require Import Store_proofs Exec_proofs Exec_req_proofs Exec_hist_proofs Exec_fault_proofs.
 Open Scope list_scope.
 Open Scope Z_scope.
 
@@ -40,6 +40,10 @@ Theorem C05_fc15_quantity_refuted :
   snd (spec_exec (abs (ctx1 0)) w) = SExc 143 3.
 Proof. exact fc15_short_data_accepted. Qed.
 Print Assumptions C05_fc15_quantity_refuted.
+
+Theorem C05_full_statement_refuted : ~ C05_full_statement.
+Proof. exact full_classify_statement_refuted. Qed.
+Print Assumptions C05_full_statement_refuted.
 
 Theorem C05_full_statement_refuted_fc5 :
   exists c w r, inv c /\ decode_attrs w = Ok r /\ other_ok w /\ ~ step_ok c r w.
@@ -85,6 +89,29 @@ Theorem C05_unsupported_function : forall c fc,
   supported fc = false -> serve XC std c (req0 fc) = (c, Exc (Z.lor fc 128) 1).
 Proof. exact unsupported_function. Qed.
 Print Assumptions C05_unsupported_function.
+
+(* datastores that raise: the plan says which datastore call (validate / getValues /
+   setValues, counted over the request) raises.  A raised call is answered with exception
+   04 carrying fc|0x80; without a raised call the behaviour is the fault-free one; if the
+   first datastore call of the request raises, the store is untouched.  (Holds for every
+   script: nothing inside execute catches, the server wrapper maps to SlaveFailure.) *)
+Theorem C05_datastore_failure : forall c plan r st' o,
+  serve XC faulty {| fs_ctx := c; fs_plan := plan |} r = (st', o) ->
+  exists used, plan = used ++ fs_plan st' /\
+    (any_true used = true -> o = Exc (Z.lor (r_fc r) 128) 4) /\
+    (any_true used = false -> serve XC std c r = (fs_ctx st', o)) /\
+    (forall p, plan = true :: p -> fs_ctx st' = c).
+Proof. exact datastore_failure. Qed.
+Print Assumptions C05_datastore_failure.
+
+(* but "exception => nothing changed" fails when the datastore raises in the read-back
+   getValues that FC5 / FC6 / FC23 perform AFTER their setValues *)
+Theorem C05_failure_after_write_refuted :
+  let r := req_of (WWriteCoil 0 0) in
+  let '(st', o) := serve XC faulty {| fs_ctx := ctx1 1; fs_plan := [false; false; true] |} r in
+  o = Exc 133 4 /\ cx_get SC (ctx1 1) 1 0 1 = Ok [1] /\ cx_get SC (fs_ctx st') 1 0 1 = Ok [0].
+Proof. exact failure_after_write_refuted. Qed.
+Print Assumptions C05_failure_after_write_refuted.
 
 Example C05_nonvacuous :
   inv (ctx1 0) /\
